@@ -165,10 +165,16 @@ SWEEP_T_THOROUGH = 1100
 
 
 WIDTHS = {1: [1, 4], 2: [3, 5], 4: [1, 4, 8], 8: [1, 3], 16: [1, 2, 3, 8]}
+# backends wider than the block size, and wider than anything a byte can index (one case in seven uses these)
+WIDTHS_WIDE = {4: [1, 12, 260], 8: [3, 20], 16: [2, 16, 256]}
 
 
-def width_variants(bs, w):
-    return [(bs, ww) for ww in WIDTHS.get(bs, [w])]
+def width_table(rng, bs):
+    return WIDTHS_WIDE if (bs in WIDTHS_WIDE and rng.randrange(7) == 0) else WIDTHS
+
+
+def width_variants(bs, w, table=None):
+    return [(bs, ww) for ww in (table or WIDTHS).get(bs, [w])]
 
 
 def final_state_op(family):
@@ -185,13 +191,14 @@ def run_C07(ctx):
             bs, w = pick_matrix(rng, mode, lambda x: x[0] in WIDTHS)
             mbs = mode_bs(mode, bs)
             key, iv = rb(rng, 16), rb(rng, ivlen(mode, bs))
-            wmax = max(ww for _, ww in width_variants(bs, w))
+            wt = width_table(rng, bs)
+            wmax = max(ww for _, ww in width_variants(bs, w, wt))
             n = rng.choice([wmax + 1, 2 * wmax + 1, 2 * wmax - 1, rng.randrange(0, 3 * wmax + 2)]) if mbs > 1 else rng.randrange(0, 2 * bs + 3)
             data = rb(rng, n * mbs)
             g = []
-            ref = Case("block", mode, bs, width_variants(bs, w)[0][1], key, iv, ops=enc_ops_for_path(rng, "block", mbs, w, data) + ["ivstate"], role="ref")
+            ref = Case("block", mode, bs, width_variants(bs, w, wt)[0][1], key, iv, ops=enc_ops_for_path(rng, "block", mbs, w, data) + ["ivstate"], role="ref")
             g.append(ref)
-            for (_, ww) in width_variants(bs, w):
+            for (_, ww) in width_variants(bs, w, wt):
                 for path in (["blocks", "mixed", "mixed"] if ctx.thorough else ["blocks", "mixed"]):
                     g.append(Case("block", mode, bs, ww, key, iv, ops=enc_ops_for_path(rng, path, mbs, ww, data) + ["ivstate"], role=path))
             groups.append(g)
@@ -225,12 +232,13 @@ def run_C07(ctx):
             bs, w = pick_matrix(rng, mode, lambda x: x[0] in WIDTHS)
             key = rb(rng, 16)
             iv, _ = stream_iv(rng, mode, bs, key)
-            wmax = max(ww for _, ww in width_variants(bs, w))
+            wt = width_table(rng, bs)
+            wmax = max(ww for _, ww in width_variants(bs, w, wt))
             n = rng.choice([wmax + 1, 2 * wmax + 1, rng.randrange(0, 3 * wmax + 2)])
             data = rb(rng, n * bs)
-            g = [Case("core", mode, bs, width_variants(bs, w)[0][1], key, iv,
+            g = [Case("core", mode, bs, width_variants(bs, w, wt)[0][1], key, iv,
                       ops=[f"applyblocks {hx(data[i*bs:(i+1)*bs])}" for i in range(n)] + ["ivstate"], role="ref")]
-            for (_, ww) in width_variants(bs, w):
+            for (_, ww) in width_variants(bs, w, wt):
                 ops, i = [], 0
                 for k in random_composition(rng, n, zero_p=0.1, bias=[1, ww, ww + 1]):
                     ops.append(coreapply_op(rng, data[i*bs:(i+k)*bs], bs))
@@ -242,12 +250,13 @@ def run_C07(ctx):
     for mode in CTS_MODES:
         for _ in range(ctx.n(10, 150)):
             bs = rng.choice(list(WIDTHS))
+            wt = width_table(rng, bs)
             key, iv = rb(rng, 16), rb(rng, ivlen(mode, bs))
-            wmax = max(WIDTHS[bs])
+            wmax = max(wt[bs])
             L = rng.randrange(bs, (2 * wmax + 3) * bs + 1)
             data = rb(rng, L)
             op = rng.choice(["enc", "dec"])
-            g = [Case("cts", mode, bs, ww, key, iv, ops=[f"{op} {hx(data)}"], role="w") for ww in WIDTHS[bs]]
+            g = [Case("cts", mode, bs, ww, key, iv, ops=[f"{op} {hx(data)}"], role="w") for ww in wt[bs]]
             groups.append(g)
             allc += g
     res = ctx.run(allc, layers=())
